@@ -58,6 +58,9 @@ fn process_commands(
                     }
                 }
             }
+            // Lines this command left queued (e.g. the line pushed along with a refusal) must not
+            // be reported as the response of a later command
+            while let Ok(Some(_)) = receiver.try_next() {}
         }
     }
 
